@@ -2,7 +2,7 @@
 import json
 import os
 
-from .. import c07_gen, dl, engine_tie, gen_dl, lib
+from .. import c07_gen, dl, engine_tie, gen_dl, indexed_tie, lib, plan_model
 
 PROP = "C01"
 PROP_FILE = "Props/C01.v"
@@ -101,6 +101,14 @@ def tie(tier, seed, replay):
             results += engine_tie.run(PROP, sat[i:i + chunk], tag="c01sat")
     mism, feats, shapes, distinct = [], {}, {}, set()
     nrec = 0
+    # the planner model (Plan/PlanModel.v compile_model, proved to produce only plans the validator accepts) against the plan the
+    # real macro dumped for the same programs; and the per-index engine (Engine/IndexedEval.v) against the real index fields
+    plan_stats, idx = {}, None
+    if not replay:
+        mism += plan_model.check_cases([c for c in cases if not str(c["id"]).startswith("corpus_")], tag="plan_c01", stats=plan_stats)
+        plan_stats.pop("_distinct", None)
+        idx = indexed_tie.run_tie("quick", seed, tag="indexed_c01") if tier == "quick" else indexed_tie.run_tie("thorough", seed, tag="indexed_c01t")
+        mism += idx["mismatches"]
     nskipped = sum(1 for r in results if r.get("skipped"))
     results = [r for r in results if not r.get("skipped")]
     for r in results:
@@ -125,10 +133,13 @@ def tie(tier, seed, replay):
                 samples=sample, distribution=dict(programs=len(results), shapes=shapes, features=feats, recursive_deriving_runs=nrec),
                 mismatches=mism,
                 trusted_base=["FRONT hook (ascent_macro/src/verif_hook.rs, feature verif_hooks) printing the MIR plan; gen/dl.py translating the dump into the Coq plan term; gen/prog.py generated crates + canonicaliser",
-                              "code generation from MIR to Rust (ascent_codegen.rs) is modelled by hand in Engine/Eval.v and tied by these runs, not verified",
+                              "code generation from MIR to Rust (ascent_codegen.rs) is modelled by hand in Engine/Eval.v (abstract indices) and Engine/IndexedEval.v (one physical index per column set; proved to refine Eval.v) and tied by these runs, not verified",
+                              "the planner (ascent_hir.rs / ascent_mir.rs) is mirrored by hand in Plan/PlanModel.v (proved: every plan it computes is accepted by the validator) and compared structurally with the dumped plan of every generated program; petgraph's condensation is an input of the model, checked per program by the decidable sccs_ok",
                               "rustc, hashbrown / std collections meet their documented semantics"],
                 assumptions=["column values are small i32 (no overflow in the vocabulary functions)", "hash-map iteration order is not modelled: relation contents are compared as sets plus row counts"],
-                extra=dict(cases_skipped_model_too_slow=nskipped, programs=len(results), plans_validated=sum(1 for r in results if r["valid"] is True)))
+                extra=dict(cases_skipped_model_too_slow=nskipped, programs=len(results), plans_validated=sum(1 for r in results if r["valid"] is True),
+                           planner_model_vs_dumped_plan={k: v for k, v in plan_stats.items() if k in ("evaluations", "wf_core_holds", "sccs_ok_holds", "untranslatable", "not_compiled", "features")},
+                           indexed_engine_vs_real_index_fields=(dict(idx["coverage"], histories=idx["evaluations"], rule=idx["rule"]) if idx else None)))
 
 
 def load_corpus_from(cases):
